@@ -415,7 +415,10 @@ func (c *Cluster) MutateSetting(ns, name string, f func(*edsv1.ExtendedDaemonset
 }
 
 // DeleteERS removes a replica set object (user or GC).
-func (c *Cluster) DeleteERS(ns, name string) { c.rawDelete(GVKERS, ns, name); c.tracef("ers delete %s/%s", ns, name) }
+func (c *Cluster) DeleteERS(ns, name string) {
+	c.rawDelete(GVKERS, ns, name)
+	c.tracef("ers delete %s/%s", ns, name)
+}
 
 // ForceRemovePod removes a pod object whatever its state (pod GC).
 func (c *Cluster) ForceRemovePod(ns, name string) {
